@@ -80,13 +80,13 @@ func LoadEngine(repo string, patterns []string, overlay map[string][]byte) (*Eng
 		dir := filepath.Dir(p.GoFiles[0])
 		path := filepath.Join(dir, contractFileName)
 		if data, ok := overlay[path]; ok {
-			if err := e.contracts.LoadContractText(string(data), path, p.Name); err != nil {
+			if err := e.contracts.LoadContractText(string(data), path, pkgID(p.Types)); err != nil {
 				return nil, err
 			}
 			continue
 		}
 		if _, err := os.Stat(path); err == nil {
-			if err := e.contracts.LoadContractFile(path, p.Name); err != nil {
+			if err := e.contracts.LoadContractFile(path, pkgID(p.Types)); err != nil {
 				return nil, err
 			}
 		}
